@@ -22,13 +22,13 @@ var simPatterns = []string{
 
 // exception tables: one symbol each, with a reason
 var mapRangeExceptions = map[string]string{
-	"amd/driver/internal|memoryAllocatorImpl.deviceIDByPAddr|a.devices": "returns the id of the device whose address range contains pAddr; device ranges are disjoint by construction (RegisterDevice assigns consecutive ranges), so at most one key satisfies the test and the result does not depend on iteration order",
+	"amd/driver/internal|memoryAllocatorImpl.deviceIDByPAddr|a.devices":       "returns the id of the device whose address range contains pAddr; device ranges are disjoint by construction (RegisterDevice assigns consecutive ranges), so at most one key satisfies the test and the result does not depend on iteration order",
 	"amd/insts|Disassembler.initializeDecodeTable|d.decodeTables[VOP1].insts": "copies VOP1 rows into the VOP3a table; the destination is a map keyed by opcode, only the InstType.ID counter depends on the order and InstType.ID has no reader (checked by R05.1.id)",
 }
 
 var hostValueExceptions = map[string]string{
-	"amd/sampling|SampledEngine.Reset|time.Now":    "wall-clock start of the sampled run, stored in FullSimWallTimeStart for reporting only",
-	"amd/driver|Driver.logSimulationStart|xid.New": "random id naming the tracing task of this run; it flows only into tracing calls",
+	"amd/sampling|SampledEngine.Reset|time.Now":                           "wall-clock start of the sampled run, stored in FullSimWallTimeStart for reporting only",
+	"amd/driver|Driver.logSimulationStart|xid.New":                        "random id naming the tracing task of this run; it flows only into tracing calls",
 	"amd/timing/cu|ComputeUnit.sendScalarShadowBufferAccesses|xid.New":    "fresh request ID for a re-issued scalar access after a pipeline restart; request IDs are compared for equality only (response matching), as with akita's own xid-based parallel ID generator",
 	"amd/timing/cu|ComputeUnit.sendInstFetchShadowBufferAccesses|xid.New": "fresh request ID for a re-issued instruction fetch after a pipeline restart; compared for equality only",
 }
@@ -360,10 +360,10 @@ func runC05(c *core.Ctx) core.Meta {
 	// ---------------- R05.3 concurrency on the event path ----------------
 	st3 := c.Rule("R05.3", "go statements and multi-way selects in simulation code are exactly the frozen inventory (the driver's runAsync / runEngine and the listener's Notify)", 3)
 	inv := map[string]bool{
-		"amd/driver|Driver.Run|go":                              true,
-		"amd/driver|Driver.runAsync|go":                         true,
-		"amd/driver|Driver.runAsync|select":                     true,
-		"amd/driver|CommandQueueStatusListener.Notify|select":   true,
+		"amd/driver|Driver.Run|go":                            true,
+		"amd/driver|Driver.runAsync|go":                       true,
+		"amd/driver|Driver.runAsync|select":                   true,
+		"amd/driver|CommandQueueStatusListener.Notify|select": true,
 	}
 	for _, p := range pkgs {
 		rel := core.RelPkg(p.PkgPath)
